@@ -9,8 +9,8 @@ def plan(tier):
          inst("relations[bounded x bounded, elementwise]", 'harness.c20', 'relations', dict(broadcast="elementwise"), weight=40, timeout_s=900),
          inst("relations[bounded x bounded, pairwise]", 'harness.c20', 'relations', dict(broadcast="pairwise"), weight=40, timeout_s=900)]
     if not q:
-        I.append(inst("moebius-image[z -> 1/(z+t)]", 'harness.c20', 'moebius', dict(kind='inversion'), weight=400, timeout_s=3000))
-        I.append(inst("moebius-image[general 2x2]", 'harness.c20', 'moebius', dict(kind='general'), weight=600, timeout_s=3000))
+        I.append(inst("moebius-image[z -> 1/(z+t)]", 'harness.c20', 'moebius', dict(kind='inversion'), weight=400, timeout_s=1500))
+        I.append(inst("moebius-image[general 2x2]", 'harness.c20', 'moebius', dict(kind='general'), weight=600, timeout_s=1500))
     return dict(
         instances=I,
         explanation=("bounded symbolic verification of the bounded-disk part of C20 in exact complex arithmetic (re/im pairs): spherical_to_projective / "
